@@ -170,6 +170,9 @@ func checkCase(c *Case, count bool) error {
 			return fmt.Errorf("%sServeHTTP ran %d handlers", desc(), len(sv.Hits))
 		}
 		h := sv.Hits[0]
+		if m := h.WrapMismatch(); m != "" {
+			return fmt.Errorf("%s%s", desc(), m)
+		}
 		if direct {
 			if h.Kind != "route" || h.Pattern != got.Pattern || !sameParams(h.Params, got.Params) {
 				return fmt.Errorf("%sLookup returned %v but ServeHTTP ran %s handler pattern=%q params=%v", desc(), got, h.Kind, h.Pattern, h.Params)
